@@ -130,7 +130,7 @@ def main():
             r = res[s["seed"]]
             ent = table.get(s["seed"], {})
             ent.update({"prop": s["prop"], "test": s["test"], "clean_tree": r["result"], "secs": r.get("secs")})
-            ent["usable"] = r["result"] == "pass" and not ent.get("fails_on_benign")
+            ent["usable"] = r["result"] == "pass" and not ent.get("fails_on_benign") and not ent.get("flaky_under_load")
             table[s["seed"]] = ent
         json.dump(table, open(TABLE, "w"), indent=1, sort_keys=True)
         bad = [k for k, v in table.items() if not v["usable"]]
